@@ -7,12 +7,16 @@
    implementation performs - so that `Crash` can fall between any two of them:
         mode "w":  [Backup  = move(dest -> first free "#dest.n#")]  if dest exists ;  MoveTmp = move(tmp -> dest)
         mode "a":  Append = append tmp's content to dest (creating it) ;  RmTmp = remove(tmp)
-   Gate(l) is the end of a martinize2 run: l = number of warnings left after -maxwarn (spec WarnCount).        *)
+   Gate(l) is the end of a martinize2 run: l = number of warnings left after -maxwarn (spec WarnCount).
+   The effect of every primitive, the first-free-backup rule and the safety / finalisation predicates are the pure
+   operators of DeferredWriterOps (shared with the judge of recorded runs, DeferredWriterJudge); the invariants
+   StepsAgree / FinalAgrees tie the state machine below to the closed forms Steps / FinalOf the judge uses.        *)
 EXTENDS Integers, Sequences, FiniteSets, TLC
 
 CONSTANTS Path, K, Tok, MaxOpens, MaxRounds
 
 ABSENT == <<"#absent">>
+INSTANCE DeferredWriterOps
 Slot == 1..K
 Name == Path \X (0..K)
 
@@ -24,26 +28,20 @@ VARIABLES fs,       \* the directory
           opens, rounds, plan   \* bounds ; plan = pending at the start of the finalisation (for `Finalised`)
 vars == <<fs, pending, pc, phase, pre, opens, rounds, plan>>
 
-IsPrefix(s, t) == Len(s) <= Len(t) /\ SubSeq(t, 1, Len(s)) = s
-Exists(f, p, n) == f[<<p, n>>] # ABSENT
-HasFree(f, p)  == \E n \in Slot : ~Exists(f, p, n)
-FirstFree(f, p) == CHOOSE n \in Slot : ~Exists(f, p, n) /\ \A j \in 1..(n - 1) : Exists(f, p, j)
-EntryFor(pd, p) == {i \in DOMAIN pd : pd[i].final = p}
 
 -----------------------------------------------------------------------------
 Init ==
   /\ fs \in [Name -> {ABSENT, <<"old">>}]
-  /\ \A p \in Path : HasFree(fs, p)
+  /\ \A p \in Path : HasFree(fs, p, K)
   /\ pending = <<>> /\ pc = "start" /\ phase = "running" /\ pre = fs /\ opens = 0 /\ rounds = 0 /\ plan = <<>>
 
 (* deferred open in mode m + one write of token t through the returned handle + closing the handle *)
 OpenWrite(p, m, t) ==
   /\ phase = "running" /\ opens < MaxOpens
-  /\ IF EntryFor(pending, p) # {}
-     THEN LET i == CHOOSE x \in EntryFor(pending, p) : TRUE IN
-          /\ pending[i].mode = m                         \* mixing "w" and "a" on one path is not specified
-          /\ pending' = [pending EXCEPT ![i].data = IF m = "w" THEN <<t>> ELSE Append(@, t)]
-     ELSE pending' = Append(pending, [final |-> p, mode |-> m, data |-> <<t>>])
+  \* mixing "w" and "a" on one path: which of the two decides how the destination is finalised is not stated; the state
+  \* machine leaves it out, the judge of recorded histories admits either reading (DeferredWriterJudge.Resolutions)
+  /\ \A i \in EntryFor(pending, p) : pending[i].mode = m
+  /\ pending' = OpenFx(pending, p, m, <<t>>)
   /\ opens' = opens + 1
   /\ UNCHANGED <<fs, pc, phase, pre, rounds, plan>>
 
@@ -55,7 +53,7 @@ Discard ==
 
 BeginWrite ==
   /\ phase = "running" /\ rounds < MaxRounds
-  /\ \A i \in DOMAIN pending : HasFree(fs, pending[i].final)
+  /\ \A i \in DOMAIN pending : HasFree(fs, pending[i].final, K)
   /\ phase' = "finalising" /\ pc' = "start" /\ pre' = fs /\ plan' = pending /\ rounds' = rounds + 1
   /\ UNCHANGED <<fs, pending, opens>>
 
@@ -63,20 +61,20 @@ Hd == pending[1]
 
 Backup ==
   /\ phase = "finalising" /\ pending # <<>> /\ pc = "start" /\ Hd.mode = "w" /\ Exists(fs, Hd.final, 0)
-  /\ fs' = [fs EXCEPT ![<<Hd.final, FirstFree(fs, Hd.final)>>] = fs[<<Hd.final, 0>>], ![<<Hd.final, 0>>] = ABSENT]
+  /\ fs' = BackupFx(fs, Hd.final, K)
   /\ pc' = "backedup"
   /\ UNCHANGED <<pending, phase, pre, opens, rounds, plan>>
 
 MoveTmp ==
   /\ phase = "finalising" /\ pending # <<>> /\ Hd.mode = "w"
   /\ pc = "backedup" \/ (pc = "start" /\ ~Exists(fs, Hd.final, 0))
-  /\ fs' = [fs EXCEPT ![<<Hd.final, 0>>] = Hd.data]
+  /\ fs' = MoveFx(fs, Hd.final, Hd.data)
   /\ pending' = Tail(pending) /\ pc' = "start"
   /\ UNCHANGED <<phase, pre, opens, rounds, plan>>
 
 AppendDest ==
   /\ phase = "finalising" /\ pending # <<>> /\ pc = "start" /\ Hd.mode = "a"
-  /\ fs' = [fs EXCEPT ![<<Hd.final, 0>>] = (IF @ = ABSENT THEN <<>> ELSE @) \o Hd.data]
+  /\ fs' = AppendFx(fs, Hd.final, Hd.data)
   /\ pc' = "appended"
   /\ UNCHANGED <<pending, phase, pre, opens, rounds, plan>>
 
@@ -112,16 +110,11 @@ Spec == Init /\ [][Next]_vars
 UntouchedUntilFinalise == [][(phase = "running" /\ phase' \in {"running", "refused"}) => fs' = fs]_vars
 RefusedIsFinal == phase = "refused" => (fs = pre /\ pending = <<>>)
 
-AppendTarget(p) == \E i \in DOMAIN plan : plan[i].final = p /\ plan[i].mode = "a"
+AppendTarget(p) == AppendTargetIn(plan, p)
 
 \* in EVERY reachable state - in particular every crash point - each file that existed when finalisation began is
 \* intact under its own name or a backup name (append destinations: the old content is a prefix)
-PreExistingSafe ==
-  \A p \in Path : \A n \in 0..K :
-     Exists(pre, p, n) =>
-        \/ fs[<<p, n>>] = pre[<<p, n>>]
-        \/ n = 0 /\ \E m \in Slot : ~Exists(pre, p, m) /\ fs[<<p, m>>] = pre[<<p, 0>>]
-        \/ n = 0 /\ AppendTarget(p) /\ IsPrefix(pre[<<p, 0>>], fs[<<p, 0>>])
+PreExistingSafe == SafeOf(pre, fs, plan, Path, K)
 
 \* a primitive never overwrites an existing name, except that an append destination grows
 NeverOverwrites ==
@@ -131,19 +124,22 @@ NeverOverwrites ==
 
 \* after a complete finalisation every destination holds exactly what was written for it, a pre-existing destination
 \* written in "w" mode sits byte for byte under the first backup name that was free, nothing else changed
-FinalisedState ==
-  \A p \in Path :
-     LET E == {i \in DOMAIN plan : plan[i].final = p} IN
-     IF E = {} THEN \A n \in 0..K : fs[<<p, n>>] = pre[<<p, n>>]
-     ELSE LET e == plan[CHOOSE i \in E : TRUE] IN
-          IF e.mode = "w"
-          THEN /\ fs[<<p, 0>>] = e.data
-               /\ IF Exists(pre, p, 0)
-                  THEN /\ fs[<<p, FirstFree(pre, p)>>] = pre[<<p, 0>>]
-                       /\ \A n \in Slot \ {FirstFree(pre, p)} : fs[<<p, n>>] = pre[<<p, n>>]
-                  ELSE \A n \in Slot : fs[<<p, n>>] = pre[<<p, n>>]
-          ELSE /\ fs[<<p, 0>>] = (IF Exists(pre, p, 0) THEN pre[<<p, 0>>] ELSE <<>>) \o e.data
-               /\ \A n \in Slot : fs[<<p, n>>] = pre[<<p, n>>]
+FinalisedState == FinalisedOf(pre, fs, plan, Path, K)
 FinalisedAtDone == [][Done => FinalisedState']_vars
 OneEntryPerDestination == \A i, j \in DOMAIN pending : i # j => pending[i].final # pending[j].final
+
+\* the closed forms used by the judge of recorded runs agree with the state machine: during (and after an interrupted)
+\* finalisation the directory is the one after the first `done` primitives of Steps(pre, plan), and a completed
+\* finalisation ends in FinalOf(pre, plan), which satisfies the declarative FinalisedOf
+Remaining == IF pc = "appended" THEN 1 + NPrims(fs, Tail(pending), K) ELSE NPrims(fs, pending, K)
+StepsAgree ==
+  phase \in {"finalising", "crashed"} =>
+     LET total == NPrims(pre, plan, K) IN
+     /\ Remaining <= total
+     /\ fs = StateAfter(pre, plan, K, total - Remaining)
+FinalAgrees ==
+  (phase = "finalising" /\ pending = <<>>) =>
+     /\ fs = FinalOf(pre, plan, K)
+     /\ FinalisedOf(pre, FinalOf(pre, plan, K), plan, Path, K)
+     /\ \A k \in 0..NPrims(pre, plan, K) : SafeOf(pre, StateAfter(pre, plan, K, k), plan, Path, K)
 =============================================================================
